@@ -1,9 +1,11 @@
 (* C03 -- executable exact-rational model of the proximal bundle (src/solver/bundle.cpp), of the stopping tests of
    the curve search (src/solver/csearch.cpp), of the status logic of RQB / FPBA / solver_t::done and of the 1-D branch
-   of the ellipsoid method (src/solver/ellipsoid.cpp).  No proofs here.
+   of the ellipsoid method (src/solver/ellipsoid.cpp), and -- at the end, over the field operations [fops F] of
+   C01Q_Defs (lists as vectors, lists of rows as matrices) -- of its n-D deep-cut update.  No proofs here.
 
    The integer / boolean decisions are the kernels regenerated from the source on every run (Src_c03). *)
 From Coq Require Import List ZArith QArith Bool.
+From LN Require C01Q_Defs.
 From LNGen Require Import Src_c03.
 Import ListNotations.
 Local Open Scope Q_scope.
@@ -223,3 +225,78 @@ Definition removed_count (thres : Q) (es : list Q) : nat := length (filter (fun 
 Definition nth_post (arr : list Q) (k : nat) : bool :=
   let v := nth k arr 0 in
   forallb (fun e => Qle_bool e v) (firstn k arr) && forallb (fun e => Qle_bool v e) (skipn (S k) arr).
+
+(* ---- ellipsoid, n-D branch: the deep-cut update -------------------------------------------------------------------- *)
+(* Written once over a record of field operations (C01Q_Defs.fops: instantiated at the canonical rationals Qc for the
+   extracted model that replays the `ev_ellipsoid_update` events of the real solver, at any ordered field in the
+   theorems).  The square root s = std::sqrt(gHg) is an INPUT (a witness: the theorems assume s*s = g'Hg, 0 < s; the
+   driver takes the double computed by the run).  [nf] is function.size() as a scalar. *)
+Local Close Scope Q_scope.
+Section EllN.
+  Variable F : Type.
+  Variable FO : C01Q_Defs.fops F.
+  Local Notation "0" := (C01Q_Defs.f0 FO).
+  Local Notation "1" := (C01Q_Defs.f1 FO).
+  Local Infix "+" := (C01Q_Defs.fadd FO).
+  Local Infix "*" := (C01Q_Defs.fmul FO).
+  Local Infix "-" := (C01Q_Defs.fsub FO).
+  Local Infix "/" := (C01Q_Defs.fdiv FO).
+  Local Notation "/ x" := (C01Q_Defs.finv FO x).
+  Local Notation fvec := (list F).
+  Local Notation fmat := (list (list F)).
+
+  Definition en_two : F := 1 + 1.
+  Fixpoint en_nat (k : nat) : F := match k with O => 0 | S k' => en_nat k' + 1 end.
+  (* gHg = gv.dot(Hm * gv) *)
+  Definition en_gHg (H : fmat) (g : fvec) : F := C01Q_Defs.dot FO g (C01Q_Defs.mv FO H g).
+  (* alpha = (f - state.fx()) / std::sqrt(gHg) *)
+  Definition en_alpha (s f fbest : F) : F := (f - fbest) / s.
+  (* xv - (1 + n * alpha) / (n + 1) * (Hm * gv) / std::sqrt(gHg) *)
+  Definition en_x (nf s alpha : F) (x : fvec) (H : fmat) (g : fvec) : fvec :=
+    C01Q_Defs.vsub FO x
+      (C01Q_Defs.vdivs FO (C01Q_Defs.vscale FO ((1 + nf * alpha) / (nf + 1)) (C01Q_Defs.mv FO H g)) s).
+  (* (n * n) / (n * n - 1) * (1 - alpha * alpha) *
+     (Hm - 2 * (1 + n * alpha) / (n + 1) / (1 + alpha) * (Hm * gv * gv.transpose() * Hm) / gHg) *)
+  Definition en_H (nf alpha : F) (H : fmat) (g : fvec) : fmat :=
+    C01Q_Defs.mscale FO ((nf * nf) / (nf * nf - 1) * (1 - alpha * alpha))
+      (C01Q_Defs.msub FO H
+         (C01Q_Defs.mdivs FO
+            (C01Q_Defs.mscale FO (en_two * (1 + nf * alpha) / (nf + 1) / (1 + alpha))
+               (C01Q_Defs.mmul FO (C01Q_Defs.outer FO (C01Q_Defs.mv FO H g) g) H))
+            (en_gHg H g))).
+  (* the inverse of the shape matrix, carried explicitly (Sherman-Morrison; not computed by the code):
+     P+ = (1/delta) (P + k g g' / s^2),  delta = n^2 (1 - alpha^2) / (n^2 - 1),  k = 2 (1 + n alpha) / ((n - 1)(1 - alpha)) *)
+  Definition en_delta (nf alpha : F) : F := (nf * nf) / (nf * nf - 1) * (1 - alpha * alpha).
+  Definition en_k (nf alpha : F) : F := en_two * (1 + nf * alpha) / ((nf - 1) * (1 - alpha)).
+  Definition en_P (nf s alpha : F) (P : fmat) (g : fvec) : fmat :=
+    C01Q_Defs.mscale FO (/ en_delta nf alpha)
+      (C01Q_Defs.madd FO P (C01Q_Defs.mscale FO (en_k nf alpha / (s * s)) (C01Q_Defs.outer FO g g))).
+
+  (* one oracle answer at the current centre: value, sub-gradient, and the square root witness of g'Hg *)
+  Record estep := mk_estep { ef : F; eg : fvec; es : F }.
+  (* the state of the loop: centre, shape matrix, best value seen at the EARLIER centres *)
+  Record estate := mk_estate { ex : fvec; eH : fmat; ebest : F }.
+  (* state.fx() once the current centre has been evaluated (update_if_better) *)
+  Definition en_lt (a b : F) : bool := Z.eqb (C01Q_Defs.fcmp FO a b) (-1).      (* a < b *)
+  Definition en_best (bprev f : F) : F := if en_lt f bprev then f else bprev.
+  Definition en_step (nf : F) (st : estate) (o : estep) : estate :=
+    let best := en_best (ebest st) (ef o) in
+    let alpha := en_alpha (es o) (ef o) best in
+    mk_estate (en_x nf (es o) alpha (ex st) (eH st) (eg o)) (en_H nf alpha (eH st) (eg o)) best.
+  Definition en_run (nf : F) (st : estate) (os : list estep) : estate :=
+    fold_left (en_step nf) os st.
+  (* H0 = R^2 I,  P0 = I / R^2 *)
+  Definition en_H0 (n : nat) (R : F) : fmat := C01Q_Defs.mscale FO (R * R) (C01Q_Defs.identity FO n).
+  Definition en_P0 (n : nat) (R : F) : fmat := C01Q_Defs.mscale FO (/ (R * R)) (C01Q_Defs.identity FO n).
+  (* membership in the ellipsoid {y | (y - x)' P (y - x) <= 1}, as the quadratic form *)
+  Definition en_form (P : fmat) (x y : fvec) : F :=
+    C01Q_Defs.dot FO (C01Q_Defs.vsub FO y x) (C01Q_Defs.mv FO P (C01Q_Defs.vsub FO y x)).
+End EllN.
+Arguments ef {F}. Arguments eg {F}. Arguments es {F}. Arguments ex {F}. Arguments eH {F}. Arguments ebest {F}.
+Arguments mk_estep {F}. Arguments mk_estate {F}.
+
+(* the instance that is extracted: canonical rationals *)
+Definition en_step_qc := en_step Qcanon.Qc C01Q_Defs.QcO.
+Definition en_form_qc := en_form Qcanon.Qc C01Q_Defs.QcO.
+Definition en_P_qc := en_P Qcanon.Qc C01Q_Defs.QcO.
+Local Open Scope Q_scope.
